@@ -143,6 +143,11 @@ type rawDeflater struct {
 	level    int
 	buf      bytes.Buffer
 	w        *flate.Writer
+	// hist: the last 32 KiB of what was compressed so far (context takeover): after a message that ended with a final block the
+	// next deflate stream starts with this window as its dictionary, so it may refer back across the final block
+	hist []byte
+	// keepWindow: use hist in that situation (a sender that drops its history after a final block is also conformant)
+	keepWindow bool
 }
 
 func newRawDeflater(takeover bool, level int) *rawDeflater {
@@ -155,7 +160,17 @@ func newRawDeflater(takeover bool, level int) *rawDeflater {
 func (d *rawDeflater) message(p []byte, bfinal bool) []byte {
 	d.buf.Reset()
 	if !d.takeover || d.w == nil {
-		d.w, _ = flate.NewWriter(&d.buf, d.level)
+		if d.takeover && d.keepWindow && len(d.hist) > 0 {
+			d.w, _ = flate.NewWriterDict(&d.buf, d.level, d.hist)
+		} else {
+			d.w, _ = flate.NewWriter(&d.buf, d.level)
+		}
+	}
+	if d.takeover {
+		d.hist = append(d.hist, p...)
+		if len(d.hist) > 32768 {
+			d.hist = d.hist[len(d.hist)-32768:]
+		}
 	}
 	d.w.Write(p)
 	if bfinal {
